@@ -13,6 +13,14 @@ def main():
     old, new = sys.stdin.read().split("\n@@@@\n")
     new = new.rstrip("\n")
     old = old.rstrip("\n")
+    if not os.path.isdir(WT):  # (a scratch worktree outside /repo and /verif; remove it with `git -C /repo worktree remove --force`)
+        os.makedirs(os.path.dirname(WT), exist_ok=True)
+        subprocess.check_call(["git", "-C", "/repo", "worktree", "add", "-q", "--detach", WT, "HEAD"])
+        vfile = "/repo/spec_classes/_version.py"
+        if os.path.exists(vfile):
+            import shutil
+
+            shutil.copy(vfile, os.path.join(WT, "spec_classes", "_version.py"))
     subprocess.check_call(["git", "-C", WT, "checkout", "-q", "--detach", subprocess.check_output(["git", "-C", "/repo", "rev-parse", "HEAD"], text=True).strip()])
     subprocess.check_call(["git", "-C", WT, "checkout", "--", "."])
     p = os.path.join(WT, rel)
